@@ -165,9 +165,14 @@ func (h *streamHandler) HandleRPC(stream drpc.Stream, rpc string) error {
 				return err
 			}
 		}
-	case 1, 2:
+	case 1, 2, 4:
 		var in []byte
 		_ = stream.MsgRecv(&in, hx.ByteEnc{})
+		if h.mode == 4 {
+			// half-close explicitly (as a generated SendAndClose does), then fail
+			_ = stream.CloseSend()
+			return &codedAppErr{"stop", 7}
+		}
 		if h.mode == 2 {
 			return &codedAppErr{"stop", 7}
 		}
@@ -192,7 +197,8 @@ func (h *streamHandler) HandleRPC(stream drpc.Stream, rpc string) error {
 // handler's stream context, and the connection is afterwards reusable or reports closed.
 func VerifH_EndToEndStream() {
 	trC, trS := hx.Pipe()
-	h := &streamHandler{mode: vrt.Choice("hmode", 4)}
+	h := &streamHandler{mode: vrt.Choice("hmode", 5)}
+	vrt.Tag("handler-half-closes-then-fails", h.mode == 4)
 	soft := vrt.Bool("soft")
 	srv := New(h)
 	serveDone := false
@@ -211,9 +217,10 @@ func VerifH_EndToEndStream() {
 		for i := 0; i < n; i++ {
 			m := []byte{sent[i]}
 			if err := st.MsgSend(&m, enc); err != nil {
-				rerr = err
-				done = true
-				return
+				// as with gRPC, a send that fails because the peer ended the RPC reports
+				// end-of-stream; the RPC's real outcome is obtained from the receive side
+				// (a send racing the arrival of the status may also report the status itself)
+				break
 			}
 		}
 		if h.mode != 3 {
@@ -240,7 +247,7 @@ func VerifH_EndToEndStream() {
 		vrt.Cover("e2es-echo")
 	case 1:
 		vrt.Assert(done && rerr == io.EOF && len(got) == 0, "a handler that returns early without error ends the stream cleanly at the client")
-	case 2:
+	case 2, 4:
 		vrt.Assert(done && rerr != nil && rerr != io.EOF, "a failing handler fails the client's receive")
 		if rerr != nil && rerr != io.EOF {
 			vrt.Assert(rerr.Error() == "stop" && drpcerr.Code(rerr) == 7, "with exactly the handler's message and code")
